@@ -47,7 +47,7 @@ Print Assumptions C11_removed_is_forever.
    repaired: pushPack discards what is pushed to a removed document) *)
 Theorem C11_removed_stores_no_further_change : forall s call d g,
   is_removed s d g = true ->
-  match call with LAttach _ _ _ | LAttachSame _ _ _ => False | _ => True end ->
+  match call with LAttach _ _ _ | LAttachSame _ _ _ | LAttachFail _ _ _ => False | _ => True end ->
   wget (l_writes (snd (lstep s call))) d g = wget (l_writes s) d g.
 Proof. exact removed_stores_no_further_change. Qed.
 Print Assumptions C11_removed_stores_no_further_change.
